@@ -14,6 +14,12 @@ Proof. reflexivity. Qed.
 Lemma src_every_generator_is_guarded : src_all_generators_guarded = true.
 Proof. reflexivity. Qed.
 
+(* tie obligation: every attribute hook lookup made while a structure hook is generated catches the cycle signal -- the model's
+   "RecursionError caught -> late binding" step ([catches] in Model/Threads.v).  (Finding F43: the fast branch of the TypedDict structure
+   generator did not; the signal unwound every generator in progress and reached the caller of structure().) *)
+Lemma src_every_lookup_catches_the_cycle_signal : src_lookups_catch_cycles = true.
+Proof. reflexivity. Qed.
+
 (* For the scope read off the current source: ANY number of threads, ANY class graph (deep,
    recursive, overlapping, with references through caching and non-caching lookups), ANY lists
    of first-use requests and EVERY schedule (interleaving at the granularity "one field resolved /
@@ -26,8 +32,8 @@ Proof. reflexivity. Qed.
    access are assumed, not modelled. *)
 Theorem C19_no_spurious_errors_partial :
   forall (fields : cls -> list (cls * bool)) (reqs : list (list cls)) (sched : list nat),
-    any_failed (run fields src_thread_local (init reqs) sched) = false.
-Proof. intros. rewrite src_working_set_is_thread_local. apply no_thread_fails. Qed.
+    any_failed (run fields src_thread_local src_lookups_catch_cycles (init reqs) sched) = false.
+Proof. intros. rewrite src_working_set_is_thread_local, src_every_lookup_catches_the_cycle_signal. apply no_thread_fails. Qed.
 Print Assumptions C19_no_spurious_errors_partial.
 
 (* "... return exactly what the same calls return when executed sequentially", at the model's level of observation (which requests
@@ -40,15 +46,15 @@ Print Assumptions C19_no_spurious_errors_partial.
    by the RECWARM schedules, open for TypedDicts as F35.) *)
 Theorem C19_completed_requests_are_sequential :
   forall (fields : cls -> list (cls * bool)) (reqs : list (list cls)) (sched : list nat),
-    Forall2 (fun t r => failed t = false /\ finished t ++ todo t = r) (threads (run fields src_thread_local (init reqs) sched)) reqs.
-Proof. intros. rewrite src_working_set_is_thread_local. apply finished_is_a_prefix. Qed.
+    Forall2 (fun t r => failed t = false /\ finished t ++ todo t = r) (threads (run fields src_thread_local src_lookups_catch_cycles (init reqs) sched)) reqs.
+Proof. intros. rewrite src_working_set_is_thread_local, src_every_lookup_catches_the_cycle_signal. apply finished_is_a_prefix. Qed.
 Print Assumptions C19_completed_requests_are_sequential.
 
 Corollary C19_idle_thread_completed_its_requests :
   forall (fields : cls -> list (cls * bool)) (reqs : list (list cls)) (sched : list nat) (i : nat) (t : thread) (r : list cls),
-    nth_error (threads (run fields src_thread_local (init reqs) sched)) i = Some t -> nth_error reqs i = Some r ->
+    nth_error (threads (run fields src_thread_local src_lookups_catch_cycles (init reqs) sched)) i = Some t -> nth_error reqs i = Some r ->
     todo t = [] -> failed t = false /\ finished t = r.
-Proof. intros fields reqs sched i t r. rewrite src_working_set_is_thread_local. apply idle_thread_completed_its_requests. Qed.
+Proof. intros fields reqs sched i t r. rewrite src_working_set_is_thread_local, src_every_lookup_catches_the_cycle_signal. apply idle_thread_completed_its_requests. Qed.
 Print Assumptions C19_idle_thread_completed_its_requests.
 
 (* ... and what a completed request RETURNS does not depend on the schedule either: a thread that finds a class in ITS working set
@@ -73,11 +79,24 @@ Proof. reflexivity. Qed.
 Local Open Scope N_scope.
 Definition c19_fields (c : cls) : list (cls * bool) := if N.eqb c 1 then [(2, false)] else [].
 Theorem C19_shared_working_set_refuted :
-  exists fields reqs sched, any_failed (run fields false (init reqs) sched) = true.
+  exists fields reqs sched, any_failed (run fields false true (init reqs) sched) = true.
 Proof. exists c19_fields, [[1]; [1]], [0; 1]%nat. vm_compute. reflexivity. Qed.
+
+(* ... and the other failure: with a lookup that does NOT catch the cycle signal, ONE thread structuring a class that refers to
+   itself -- no concurrency at all -- gets the RecursionError at the top level (finding F43 as it was: `class Shelf(TypedDict): sub:
+   Dict[str, Shelf]` under detailed_validation=False), the working set is left clean by the unwinding, and the request is lost *)
+Definition c19_self (c : cls) : list (cls * bool) := if N.eqb c 1 then [(1, false)] else [].
+Theorem C19_uncaught_cycle_signal_refuted :
+  exists fields reqs sched,
+    observe (run fields true false (init reqs) sched) = [(true, [])] /\
+    map ws (threads (run fields true false (init reqs) sched)) = [[]].
+Proof. exists c19_self, [[1]], [0; 0; 0]%nat. vm_compute. split; reflexivity. Qed.
+Example C19_self_reference_is_bound_late :
+  observe (run c19_self src_thread_local src_lookups_catch_cycles (init [[1]]) [0; 0; 0]%nat) = [(false, [1])].
+Proof. vm_compute. reflexivity. Qed.
 
 (* non-vacuity: the same schedule under the thread-local scope completes both requests *)
 Example C19_nonvacuous :
-  observe (run c19_fields src_thread_local (init [[1]; [1]]) [0; 1; 0; 1; 0; 1; 0; 1; 0; 1]%nat)
+  observe (run c19_fields src_thread_local src_lookups_catch_cycles (init [[1]; [1]]) [0; 1; 0; 1; 0; 1; 0; 1; 0; 1]%nat)
   = [(false, [1]); (false, [1])].
 Proof. vm_compute. reflexivity. Qed.
